@@ -1,40 +1,50 @@
 (* Model/FitQuantile.v -- the bisection loop of ExpectileGAM.fit_quantile as a small state machine, built from the
-   expressions GENERATED from the source (Gen/FitQuantile.v): once over the reals, once over binary64 (PrimFloat).
+   expressions GENERATED from the source (Gen/FitQuantile.v): once over the reals -- parametric in a function
+   `rnd : R -> R` through which every arithmetic result passes (identity: exact real arithmetic; a rounding to a
+   floating-point format: the rounded-real semantics) -- and once over binary64 (PrimFloat), bit-exact.
    The refits themselves are not modelled: what each fit does to the empirical ratio is an ORACLE (ratio k = value
    returned by _get_quantile_ratio after k refits), universally quantified in the theorems.  Definitions only. *)
 From Coq Require Import Reals ZArith Bool List PrimFloat.
 From PG Require Import Base.Ops Gen.FitQuantile.
 Import ListNotations.
 
-(* ---------------- reals ---------------- *)
-Record fqst := mk_fqst { q_min : R; q_max : R; q_e : R; q_n : Z; q_broke : bool; q_refits : nat }.
-Definition fq_init (e0 : R) : fqst := mk_fqst Gen_fq_init_min Gen_fq_init_max e0 Gen_fq_init_n_iter false 0.
+(* ---------------- reals (exact or rounded) ---------------- *)
+(* q_broke: left by `break` because the ratio is within tol;  q_stalled: left by `break` because the new expectile equals
+   an end of the bracket (it is then neither stored nor fitted) *)
+Record fqst := mk_fqst { q_min : R; q_max : R; q_e : R; q_n : Z; q_broke : bool; q_stalled : bool; q_refits : nat }.
+Definition fq_init (e0 : R) : fqst := mk_fqst Gen_fq_init_min Gen_fq_init_max e0 Gen_fq_init_n_iter false false 0.
 (* one pass through the loop body (entered because the guard held) *)
-Definition fq_body (quantile tol ratio : R) (s : fqst) : fqst :=
-  if Gen_fq_within_tol ratio quantile tol then mk_fqst (q_min s) (q_max s) (q_e s) (q_n s) true (q_refits s)
+Definition fq_body (rnd : R -> R) (quantile tol ratio : R) (s : fqst) : fqst :=
+  if Gen_fq_within_tol rnd ratio quantile tol then mk_fqst (q_min s) (q_max s) (q_e s) (q_n s) true false (q_refits s)
   else let b := Gen_fq_bracket ratio quantile (q_min s) (q_max s) (q_e s) in
-       mk_fqst (fst b) (snd b) (Gen_fq_new_expectile (fst b) (snd b)) (q_n s + Gen_fq_n_iter_step)%Z false (S (q_refits s)).
-Definition fq_running (max_iter : Z) (s : fqst) : bool := negb (q_broke s) && Gen_fq_guard (q_n s) max_iter.
-Fixpoint fq_loop (fuel : nat) (quantile tol : R) (max_iter : Z) (ratio : nat -> R) (s : fqst) : fqst :=
+       let e' := Gen_fq_new_expectile rnd (fst b) (snd b) in
+       if Gen_fq_stall e' (fst b) (snd b) then mk_fqst (fst b) (snd b) (q_e s) (q_n s) false true (q_refits s)
+       else mk_fqst (fst b) (snd b) e' (q_n s + Gen_fq_n_iter_step)%Z false false (S (q_refits s)).
+Definition fq_running (max_iter : Z) (s : fqst) : bool := negb (q_broke s) && negb (q_stalled s) && Gen_fq_guard (q_n s) max_iter.
+Fixpoint fq_loop (rnd : R -> R) (fuel : nat) (quantile tol : R) (max_iter : Z) (ratio : nat -> R) (s : fqst) : fqst :=
   match fuel with
   | O => s
-  | S f => if fq_running max_iter s then fq_loop f quantile tol max_iter ratio (fq_body quantile tol (ratio (q_refits s)) s) else s
+  | S f => if fq_running max_iter s then fq_loop rnd f quantile tol max_iter ratio (fq_body rnd quantile tol (ratio (q_refits s)) s) else s
   end.
-(* the invariant of the property text: the expectile stays strictly inside the bracket, the bracket inside [0,1] *)
-Definition fq_inv (s : fqst) : Prop := (0 <= q_min s /\ q_min s < q_e s /\ q_e s < q_max s /\ q_max s <= 1)%R.
+(* the invariant of the property text: the expectile is strictly inside (0,1), the bracket inside [0,1], and -- until the
+   loop is left through the stall exit -- the expectile is strictly inside the bracket *)
+Definition fq_inv (s : fqst) : Prop :=
+  (0 <= q_min s /\ q_max s <= 1 /\ 0 < q_e s < 1 /\ (q_stalled s = false -> q_min s < q_e s /\ q_e s < q_max s))%R.
 
 (* ---------------- binary64 ---------------- *)
-Record fqstf := mk_fqstf { f_min : float; f_max : float; f_e : float; f_n : Z; f_broke : bool; f_raised : bool; f_refits : nat;
+Record fqstf := mk_fqstf { f_min : float; f_max : float; f_e : float; f_n : Z; f_broke : bool; f_stalled : bool; f_raised : bool; f_refits : nat;
                            f_trace : list float (* expectiles handed to set_params, latest first *) }.
-Definition fqf_init (e0 : float) : fqstf := mk_fqstf Gen_fq_init_min_f Gen_fq_init_max_f e0 Gen_fq_init_n_iter false false 0 [].
+Definition fqf_init (e0 : float) : fqstf := mk_fqstf Gen_fq_init_min_f Gen_fq_init_max_f e0 Gen_fq_init_n_iter false false false 0 [].
 Definition fqf_body (quantile tol ratio : float) (s : fqstf) : fqstf :=
-  if Gen_fq_within_tol_f ratio quantile tol then mk_fqstf (f_min s) (f_max s) (f_e s) (f_n s) true false (f_refits s) (f_trace s)
+  if Gen_fq_within_tol_f ratio quantile tol then mk_fqstf (f_min s) (f_max s) (f_e s) (f_n s) true false false (f_refits s) (f_trace s)
   else let b := Gen_fq_bracket_f ratio quantile (f_min s) (f_max s) (f_e s) in
        let e' := Gen_fq_new_expectile_f (fst b) (snd b) in
+       if Gen_fq_stall_f e' (fst b) (snd b) then mk_fqstf (fst b) (snd b) (f_e s) (f_n s) false true false (f_refits s) (f_trace s)
        (* set_params(expectile=e') happens, then fit() validates the parameters first: ValueError leaves the loop *)
-       if Gen_expectile_out_of_range_f e' then mk_fqstf (fst b) (snd b) e' (f_n s) false true (f_refits s) (e' :: f_trace s)
-       else mk_fqstf (fst b) (snd b) e' (f_n s + Gen_fq_n_iter_step)%Z false false (S (f_refits s)) (e' :: f_trace s).
-Definition fqf_running (max_iter : Z) (s : fqstf) : bool := negb (f_broke s) && negb (f_raised s) && Gen_fq_guard (f_n s) max_iter.
+       else if Gen_expectile_out_of_range_f e' then mk_fqstf (fst b) (snd b) e' (f_n s) false false true (f_refits s) (e' :: f_trace s)
+       else mk_fqstf (fst b) (snd b) e' (f_n s + Gen_fq_n_iter_step)%Z false false false (S (f_refits s)) (e' :: f_trace s).
+Definition fqf_running (max_iter : Z) (s : fqstf) : bool :=
+  negb (f_broke s) && negb (f_stalled s) && negb (f_raised s) && Gen_fq_guard (f_n s) max_iter.
 Fixpoint fqf_loop (fuel : nat) (quantile tol : float) (max_iter : Z) (ratio : nat -> float) (s : fqstf) : fqstf :=
   match fuel with
   | O => s
